@@ -15,12 +15,13 @@ ASSUMPTIONS = [
     '[REAL] semantics: AngDiff(x, y) is y - x with zero error term and AngRound, LatFix, AngNormalize are the identity (their rounding refinements and the reduction modulo 360 are outside the claim; periodicity in longitude is C04/C16); signed zeros do not exist in the real model',
     'inputs: latitudes of each sign pattern in (-90, 90) (both non-zero, or both exactly zero: the equatorial problem), non-zero longitude difference of each sign with |difference| < 180, |lat1| != |lat2| for the exchange (ties between equally short geodesics are excluded as the property allows); outmask = DISTANCE|AZIMUTH|REDUCEDLENGTH|GEODESICSCALE (AREA branch outside the claim); every ellipsoid-dependent member of the Geodesic object is arbitrary, the tolerance constants have their constructor values, _exact = false',
     'GeodesicExact::GenInverse (obligations X.*) is encoded in the same way; its EllipticFunction object is a token whose state is a deterministic function of the arguments of the Reset / Lambda12 call that last set it',
+    'D.InverseStart.*: both InverseStart functions are executed (IR compiled with -mllvm -inline-threshold=0) on the same symbolic sbet1, cbet1, dn1, sbet2, cbet2, dn2, lam12, slam12, clam12 and the same ellipsoid members, under the canonical-form precondition of GenInverse (sbet1 <= 0 < cbet1, cbet2 > 0, sbet1 <= sbet2 <= -sbet1, lam12 >= 0, slam12 >= 0); sin, cos, sqrt, hypot, atan2, cbrt, Astroid and Lengths are uninterpreted functions shared by the two runs (Lengths without its first argument: eps / the EllipticFunction object). Oblate obligation: f > 0 and n > 1/10, so the antipodal arm, whose longitude scale comes from A3 in one solver and from the complete integral H in the other, is not entered - that arm for n <= 1/10 is outside the claim. Replay: the real series and exact solvers on 150+ problems per ellipsoid down to 1e-9 deg from the antipode and 1e-9 deg separation; s12 differing by more than 10 um reproduces',
 ]
 MASK = 0x0400 | 0x0001 | 0x0200 | 0x1000 | 0x0004 | 0x2000
 OUTS = ['s12', 'salp1', 'calp1', 'salp2', 'calp2', 'm12', 'M12', 'M21', 'S12']
 
 def prepare(ctx):
-    H.ir_module(ctx, W); H.native(ctx, W); H.ir_module(ctx, WX); H.native(ctx, WX)
+    H.ir_module(ctx, W); H.native(ctx, W); H.ir_module(ctx, WX); H.native(ctx, WX); H.ir_module(ctx, W, flags=NOINL); H.ir_module(ctx, WX, flags=NOINL)
 
 WX = 'w_GeodesicExact'
 GIX = '@_ZNK13GeographicLib13GeodesicExact10GenInverseEddddjRdS1_S1_S1_S1_S1_S1_S1_S1_'
@@ -138,6 +139,163 @@ def ob_sym(ctx, which, s1, s2, sd, exact=False):
     else: r['verdict'] = 'proved'
     return r
 
+# ---------------------------------------------------------------- series vs exact: InverseStart executed in both solvers on the same symbolic inputs
+ISS = '@_ZNK13GeographicLib8Geodesic12InverseStartEdddddddddRdS1_S1_S1_S1_Pd'
+ISX = '@_ZNK13GeographicLib13GeodesicExact12InverseStartERNS_16EllipticFunctionEdddddddddRdS3_S3_S3_S3_'
+IS_IN = ['sbet1', 'cbet1', 'dn1', 'sbet2', 'cbet2', 'dn2', 'lam12', 'slam12', 'clam12']
+IS_OUT = ['salp1', 'calp1', 'salp2', 'calp2', 'dnm']
+IS_SHARED = ['_a', '_f', '_f1', '_e2', '_ep2', '_n', '_b', '_c2', '_etol2']
+NOINL = ('-mllvm', '-inline-threshold=0')
+PI_ = rsym.RV(Fraction(884279719003555, 281474976710656))
+
+def _run_is(ctx, exact, assume):
+    m = H.ir_module(ctx, WX if exact else W, flags=NOINL); cls = 'GeodesicExact' if exact else 'Geodesic'; o = H.offsets(m, cls)
+    cells = {off: z3.Real('%s_%d' % (cls, off)) for off in range(0, H.sizeof(m, cls), 8)}
+    cells.update({0: 83, 8: rsym.RV(Fraction(1, 2 ** 511)), 16: rsym.RV(Fraction(1, 2 ** 52)), 24: rsym.RV(Fraction(200, 2 ** 52)), 32: rsym.RV(Fraction(1, 2 ** 26)), 40: rsym.RV(Fraction(1, 2 ** 52)), 48: rsym.RV(Fraction(1000, 2 ** 26))})
+    for n in IS_SHARED: cells[o[n]] = z3.Real('m' + n)        # the same ellipsoid in both solvers
+    if '_exact' in o: cells[o['_exact']] = 0
+    ins = [z3.Real(n) for n in IS_IN]
+    def U(name, n): return lambda ex, a, mem: ex.UF(name, n)(*a[:n])
+    def lengths(ex, a, mem):                                   # Lengths(_n | E, sig12, ssig1, csig1, dn1, ssig2, csig2, dn2, cbet1, cbet2, mask, &s12b, &m12b, &m0, &M12, &M21[, Ca])
+        args = a[2:11]
+        for k, p_ in enumerate(a[12:17]): ex.store(mem, p_, None, ex.UF('LEN_%d' % k, 9)(*args))
+        return None
+    # the longitude scale of the antipodal arm: series f*A3(eps)*pi, exact 2 e^2/(1-f) H(k2): one uninterpreted function of eps for both
+    def a3f(ex, a, mem): return ex.UF('LS', 1)(a[1]) / (z3.Real('m_f') * PI_)
+    def reset(ex, a, mem):
+        k2 = rsym.rneg(a[1]); eps = k2 / (2 * (1 + ex.UF('sqrt', 1)(1 + k2)) + k2); v = ex.UF('LS', 1)(eps) * z3.Real('m_f1') / (2 * z3.Real('m_e2'))
+        for off in range(0, 160, 8): ex.store(mem, rsym.Ptr(a[0].obj, a[0].off + off), None, v)
+        return None
+    opq = {'@_ZN13GeographicLib4Math2piIdEET_v': lambda ex, a, mem: PI_,
+           '@_ZNK13GeographicLib8Geodesic7LengthsEddddddddddjRdS1_S1_S1_S1_Pd': lengths,
+           '@_ZNK13GeographicLib13GeodesicExact7LengthsERKNS_16EllipticFunctionEdddddddddjRdS4_S4_S4_S4_': lengths,
+           '@_ZNK13GeographicLib8Geodesic3A3fEd': a3f, '@_ZN13GeographicLib16EllipticFunction5ResetEdddd': reset,
+           '@_ZN13GeographicLib8Geodesic7AstroidEdd': U('Astroid', 2), '@_ZN13GeographicLib13GeodesicExact7AstroidEdd': U('Astroid', 2)}
+    ex = rsym.Exec(m, opaque=opq, libm={'sqrt': U('sqrt', 1), 'hypot': U('hypot', 2), 'atan2': U('atan2', 2), 'sin': U('sin', 1), 'cos': U('cos', 1), 'cbrt': U('cbrt', 1)},
+                   assume=list(assume), path_cap=2048, timeout_ms=3000)
+    def mk(ex, mem):
+        ex.new_obj(mem, 'g', dict(cells)); ex.new_obj(mem, 'o', {8 * i: z3.Real('untouched_%s' % IS_OUT[i]) for i in range(5)})
+        outs = [rsym.Ptr('o', 8 * i) for i in range(5)]
+        if exact:
+            ex.new_obj(mem, 'E', {off: z3.Real('E0_%d' % off) for off in range(0, 160, 8)}); return [rsym.Ptr('g', 0), rsym.Ptr('E', 0)] + ins + outs
+        ex.new_obj(mem, 'Ca', {}); return [rsym.Ptr('g', 0)] + ins + outs + [rsym.Ptr('Ca', 0)]
+    return ex.run_all(ISX if exact else ISS, mk)
+
+def ob_diff_is(ctx, region):
+    """every feasible pair (path of Geodesic::InverseStart, path of GeodesicExact::InverseStart) on the same inputs returns the same sig12 and writes the same
+    salp1, calp1, salp2, calp2, dnm (unwritten outputs keep the same caller value)"""
+    sb1, cb1, sb2, cb2 = z3.Real('sbet1'), z3.Real('cbet1'), z3.Real('sbet2'), z3.Real('cbet2')
+    base = [z3.Real('m_f') != 0, z3.Real('m_e2') != 0, z3.Real('m_f1') > 0, sb1 <= 0, cb1 > 0, cb2 > 0, sb2 <= -sb1, sb2 >= sb1, z3.Real('lam12') >= 0, z3.Real('slam12') >= 0]
+    # oblate: the antipodal arm computes its longitude scale from A3 (series) / the complete integral H (exact) - two different numerical cores; it is skipped for n > 1/10, which is the
+    # oblate region decided here; for f < 0 both solvers use Lengths (one shared abstract function) and the whole function, astroid arm included, is compared
+    base += ([z3.Real('m_f') > 0, z3.Real('m_n') > Fraction(1, 10)] if region == 'oblate' else [z3.Real('m_f') < 0])
+    A = _run_is(ctx, False, base); B = _run_is(ctx, True, base)
+    s = z3.Solver(); s.set('timeout', 5000)
+    def keys(p):
+        cs = [z3.simplify(c) for c in p.cond[len(base):]]
+        return frozenset(c.sexpr() for c in cs), frozenset(z3.simplify(z3.Not(c)).sexpr() for c in cs)
+    KA = [keys(p) for p in A]; KB = [keys(p) for p in B]
+    q = 0; ss = 0.0; bad = None; unk = []; pairs = 0; triv = 0; shortcut = 0
+    for pa, (ka, na) in zip(A, KA):
+        for pb, (kb, nb) in zip(B, KB):
+            if nb & ka or na & kb: continue
+            cond = list(pa.cond) + list(pb.cond[len(base):])
+            if ka != kb:
+                s.push(); s.add(*cond); feas = s.check(); s.pop()
+                if feas == z3.unsat: continue
+            pairs += 1
+            va = [pa.ret] + [pa.mem['o'][8 * i] for i in range(5)]; vb = [pb.ret] + [pb.mem['o'][8 * i] for i in range(5)]
+            if not (z3.is_rational_value(z3.simplify(pa.ret)) if rsym.is_sym(pa.ret) else True): shortcut += 1
+            for name, x, y in zip(['sig12'] + IS_OUT, va, vb):
+                cl = z3.simplify(x == y); q += 1
+                if z3.is_true(cl): triv += 1; continue
+                st, model, dt = rsym.prove(cl, cond, timeout_ms=20000); ss += dt
+                if st == 'sat' and bad is None: bad = {'kind': 'c02diff', 'output': name, 'series': str(z3.simplify(x))[:200], 'exact': str(z3.simplify(y))[:200]}
+                elif st == 'unknown': unk.append(name)
+    r = {'queries': q, 'nontrivial': pairs, 'solver_s': round(ss, 3), 'functions': ['GeographicLib::Geodesic::InverseStart', 'GeographicLib::GeodesicExact::InverseStart', 'GeographicLib::Math::sq<double> (and the other inline helpers, executed)'],
+         'bounds': {'region': region + (' (f > 0, n > 1/10)' if region == 'oblate' else ' (f < 0)'), 'paths': [len(A), len(B)], 'feasible path pairs': pairs, 'pairs on which the series solver returns the short-line shortcut': shortcut, 'claims reduced to true by z3.simplify': triv}}
+    if bad: r.update({'verdict': 'violated', 'detail': 'InverseStart of the two solvers disagree on %s for the same inputs: series %s, exact %s' % (bad['output'], bad['series'], bad['exact']), 'cex': bad})
+    elif unk: r.update({'verdict': 'inconclusive', 'detail': 'unknown on outputs %r' % sorted(set(unk))})
+    elif pairs == 0 or shortcut == 0: r.update({'verdict': 'inconclusive', 'detail': 'no feasible path pair / shortcut never reached'})
+    else: r['verdict'] = 'proved'
+    return r
+
+# ---------------------------------------------------------------- series vs exact: GenInverse (bookkeeping, short-line branch, area assembly) with one shared abstract core
+MASK_AREA = MASK | 0x4000 | 0x0100      # + AREA (and its capability bit)
+def _run_gi2(ctx, exact, lat1, lon1, lat2, lon2, assume):
+    m = H.ir_module(ctx, WX if exact else W, flags=NOINL); cls = 'GeodesicExact' if exact else 'Geodesic'; o = H.offsets(m, cls)
+    cells = {off: z3.Real('%s_%d' % (cls, off)) for off in range(0, H.sizeof(m, cls), 8)}
+    cells.update({0: 83, 8: rsym.RV(Fraction(1, 2 ** 511)), 16: rsym.RV(Fraction(1, 2 ** 52)), 24: rsym.RV(Fraction(200, 2 ** 52)), 32: rsym.RV(Fraction(1, 2 ** 26)), 40: rsym.RV(Fraction(1, 2 ** 52)), 48: rsym.RV(Fraction(1000, 2 ** 26))})
+    for n in IS_SHARED: cells[o[n]] = z3.Real('m' + n)
+    if '_exact' in o: cells[o['_exact']] = 0
+    def U(name, n): return lambda ex, a, mem: ex.UF(name, n)(*a[:n])
+    def outs(ex, mem, ptrs, tag, args):
+        for k, p_ in enumerate(ptrs): ex.store(mem, p_, None, ex.UF('%s_%d' % (tag, k), len(args))(*args))
+    def nop(ex, a, mem): return None
+    def angdiff(ex, a, mem): ex.store(mem, a[2], None, rsym.RV(0)); return z3.simplify(a[1] - a[0])
+    def sincosd(ex, a, mem): ex.store(mem, a[1], None, ex.UF('sind', 1)(a[0])); ex.store(mem, a[2], None, ex.UF('cosd', 1)(a[0])); return None
+    def sincosde(ex, a, mem): ex.store(mem, a[2], None, ex.UF('sinde', 2)(a[0], a[1])); ex.store(mem, a[3], None, ex.UF('cosde', 2)(a[0], a[1])); return None
+    k = 2 if exact else 1                     # the exact solver passes its EllipticFunction object first
+    def invstart(ex, a, mem): args = a[k:k + 9]; outs(ex, mem, a[k + 9:k + 14], 'IS', args); return ex.UF('IS_sig12', 9)(*args)
+    def lambda12(ex, a, mem):
+        args = a[1:11]; outs(ex, mem, a[11:18], 'L12', args); ex.store(mem, a[19], None, ex.UF('L12_domg', 10)(*args))
+        if not exact: ex.store(mem, a[18], None, ex.UF('L12_eps', 10)(*args))
+        if isinstance(a[20], int) and (a[20] & 1): ex.store(mem, a[21], None, ex.UF('L12_dlam', 10)(*args))
+        return rsym.RV(0)
+    def lengths(ex, a, mem): args = a[2:11]; outs(ex, mem, a[12:17], 'LEN', args); return None
+    def b4(ex, a, mem): return ex.UF('B4', 2)(a[1], a[2])
+    def dstint(ex, a, mem): return ex.UF('B4', 2)(a[2], a[3]) - ex.UF('B4', 2)(a[0], a[1])
+    opq = {'@_ZN13GeographicLib4Math7AngDiffIdEET_S2_S2_RS2_': angdiff, '@_ZN13GeographicLib4Math8AngRoundIdEET_S2_': lambda ex, a, mem: a[0], '@_ZN13GeographicLib4Math6LatFixIdEET_S2_': lambda ex, a, mem: a[0],
+           '@_ZN13GeographicLib4Math7sincosdIdEEvT_RS2_S3_': sincosd, '@_ZN13GeographicLib4Math8sincosdeIdEEvT_S2_RS2_S3_': sincosde,
+           '@_ZN13GeographicLib4Math3NaNIdEET_v': lambda ex, a, mem: z3.Real('NaN'), '@_ZN13GeographicLib4Math2piIdEET_v': lambda ex, a, mem: PI_, '@_ZN13GeographicLib4Math6degreeIdEET_v': lambda ex, a, mem: PI_ / 180,
+           '@_ZNK13GeographicLib8Geodesic12InverseStartEdddddddddRdS1_S1_S1_S1_Pd': invstart, '@_ZNK13GeographicLib13GeodesicExact12InverseStartERNS_16EllipticFunctionEdddddddddRdS3_S3_S3_S3_': invstart,
+           '@_ZNK13GeographicLib8Geodesic8Lambda12EddddddddddRdS1_S1_S1_S1_S1_S1_S1_S1_bS1_Pd': lambda12, '@_ZNK13GeographicLib13GeodesicExact8Lambda12EddddddddddRdS1_S1_S1_S1_S1_S1_RNS_16EllipticFunctionES1_bS1_': lambda12,
+           '@_ZNK13GeographicLib8Geodesic7LengthsEddddddddddjRdS1_S1_S1_S1_Pd': lengths, '@_ZNK13GeographicLib13GeodesicExact7LengthsERKNS_16EllipticFunctionEdddddddddjRdS4_S4_S4_S4_': lengths,
+           '@_ZN13GeographicLib8Geodesic12SinCosSeriesEbddPKdi': b4, '@_ZNK13GeographicLib8Geodesic3C4fEdPd': nop, '@_ZN13GeographicLib3DST8integralEddddPKdi': dstint,
+           '@_ZN13GeographicLib16EllipticFunctionC2Edd': nop, '@_ZN13GeographicLib16EllipticFunction5ResetEdddd': nop, '@_ZN13GeographicLib13GeodesicExact11I4IntegrandC2Edd': nop,
+           '@_ZNK13GeographicLib3DST9transformESt8functionIFddEEPd': nop, '@_ZNSt14_Function_baseD2Ev': nop, '@_ZNSt6vectorIdSaIdEEC2EmRKS0_': nop, '@_ZNSt6vectorIdSaIdEED2Ev': nop,
+           '@_ZNSt8functionIFddEEC2IRN13GeographicLib13GeodesicExact11I4IntegrandEvEEOT_': nop}
+    ex = rsym.Exec(m, opaque=opq, libm={'sqrt': U('sqrt', 1), 'hypot': U('hypot', 2), 'atan2': U('atan2', 2), 'sin': U('sin', 1), 'cos': U('cos', 1)}, assume=list(assume), path_cap=1024, timeout_ms=3000)
+    def mk(ex, mem):
+        ex.new_obj(mem, 'g', dict(cells)); ex.new_obj(mem, 'o', {8 * i: z3.Real('untouched_%s' % OUTS[i]) for i in range(9)})
+        return [rsym.Ptr('g', 0), lat1, lon1, lat2, lon2, MASK_AREA] + [rsym.Ptr('o', 8 * i) for i in range(9)]
+    return ex.run_all(GIX if exact else GI, mk)
+
+def ob_diff_gi(ctx, s1, s2, sd):
+    la1, la2, L, D = z3.Real('alat1'), z3.Real('alat2'), z3.Real('L'), z3.Real('D')
+    base = [la1 > 0, la1 < 90, la2 > 0, la2 < 90, D > 0, D < 180, z3.Real('m_f') > 0, z3.Real('m_e2') > 0, z3.Real('m_a') > 0, z3.Real('m_f1') > 0]
+    lat1, lat2 = (la1 if s1 > 0 else -la1 if s1 < 0 else rsym.RV(0)), (la2 if s2 > 0 else -la2 if s2 < 0 else rsym.RV(0))
+    lon1, lon2 = L, (L + D if sd > 0 else L - D)
+    A = _run_gi2(ctx, False, lat1, lon1, lat2, lon2, base); B = _run_gi2(ctx, True, lat1, lon1, lat2, lon2, base)
+    s = z3.Solver(); s.set('timeout', 5000)
+    def keys(p):
+        cs = [z3.simplify(c) for c in p.cond[len(base):]]
+        return frozenset(c.sexpr() for c in cs), frozenset(z3.simplify(z3.Not(c)).sexpr() for c in cs)
+    KA = [keys(p) for p in A]; KB = [keys(p) for p in B]
+    q = 0; ss = 0.0; bad = None; unk = []; pairs = 0; triv = 0
+    for pa, (ka, na) in zip(A, KA):
+        for pb, (kb, nb) in zip(B, KB):
+            if nb & ka or na & kb: continue
+            cond = list(pa.cond) + list(pb.cond[len(base):])
+            if ka != kb:
+                s.push(); s.add(*cond); feas = s.check(); s.pop()
+                if feas == z3.unsat: continue
+            pairs += 1
+            va = [pa.ret] + [pa.mem['o'][8 * i] for i in range(9)]; vb = [pb.ret] + [pb.mem['o'][8 * i] for i in range(9)]
+            for name, x, y in zip(['a12'] + OUTS, va, vb):
+                cl = z3.simplify(x == y); q += 1
+                if z3.is_true(cl): triv += 1; continue
+                st, model, dt = rsym.prove(cl, cond, timeout_ms=20000); ss += dt
+                if st == 'sat' and bad is None: bad = {'kind': 'c02diff', 'output': name, 'series': str(z3.simplify(x))[:300], 'exact': str(z3.simplify(y))[:300]}
+                elif st == 'unknown': unk.append(name)
+    r = {'queries': q, 'nontrivial': pairs, 'solver_s': round(ss, 3), 'functions': ['GeographicLib::Geodesic::GenInverse (13-argument overload)', 'GeographicLib::GeodesicExact::GenInverse (13-argument overload)', 'GeographicLib::Math::norm<double>, sq<double> (executed)'],
+         'bounds': {'sign pattern (lat1, lat2, lon2-lon1)': [s1, s2, sd], 'paths': [len(A), len(B)], 'feasible path pairs': pairs, 'claims reduced to true by z3.simplify': triv, 'Newton iterations': 1, 'outmask': 'DISTANCE|AZIMUTH|REDUCEDLENGTH|GEODESICSCALE|AREA'}}
+    if bad: r.update({'verdict': 'violated', 'detail': 'GenInverse of the two solvers disagree on %s with the same abstract core: series %s, exact %s' % (bad['output'], bad['series'], bad['exact']), 'cex': bad})
+    elif unk: r.update({'verdict': 'inconclusive', 'detail': 'unknown on outputs %r' % sorted(set(unk))})
+    elif pairs == 0: r.update({'verdict': 'inconclusive', 'detail': 'no feasible path pair'})
+    else: r['verdict'] = 'proved'
+    return r
+
 def obligations(ctx):
     obs = []
     desc = {'equator': 'reflection in the equator: s12, a12, m12, M12, M21 and the east components of both azimuths unchanged, north components change sign',
@@ -156,11 +314,22 @@ def obligations(ctx):
             if which in ('exchange', 'equator') and s1 == 0: continue
             obs.append(Ob('X.%s.%s%s%s' % (which, '+' if s1 > 0 else '-' if s1 < 0 else '0', '+' if s2 > 0 else '-' if s2 < 0 else '0', 'E' if sd > 0 else 'W'), (lambda ctx, w=which, a=s1, b=s2, c=sd: ob_sym(ctx, w, a, b, c, True)), '[REAL] core opaque', 'E2 rsym+z3',
                           'GeodesicExact::GenInverse, ' + desc[which], timeout=1500, tier='quick' if (which, s1, s2, sd) in QX else 'thorough', bounds={'signs': [s1, s2, sd]}))
+    import os
+    for (s1, s2, sd) in (((-1, 1, 1), (1, 1, -1), (0, 0, 1), (1, -1, 1)) if os.environ.get('VERIF_EXPERIMENTAL') else ()):      # not registered: exceeds the path cap (1024) with the AREA branch, no verdict yet
+        obs.append(Ob('D.GenInverse.%s%s%s' % ('+' if s1 > 0 else '-' if s1 < 0 else '0', '+' if s2 > 0 else '-' if s2 < 0 else '0', 'E' if sd > 0 else 'W'), (lambda ctx, a=s1, b=s2, c=sd: ob_diff_gi(ctx, a, b, c)), '[REAL] core opaque, shared by both solvers', 'E2 rsym+z3',
+                      'series and exact solvers agree: Geodesic::GenInverse and GeodesicExact::GenInverse on the same symbolic problem and the same abstract numerical core write the same a12, s12, azimuth sines/cosines, m12, M12, M21 and S12 (canonical form, meridian / equatorial / short-line / Newton case selection, area assembly incl. both alp12 formulas and the sign restoration)',
+                      timeout=1500, tier='thorough', bounds={'signs': [s1, s2, sd]}))
+    for region in ('oblate', 'prolate'):
+        obs.append(Ob('D.InverseStart.%s' % region, (lambda ctx, g=region: ob_diff_is(ctx, g)), '[REAL] leaf functions opaque', 'E2 rsym+z3',
+                      'series and exact solvers agree: Geodesic::InverseStart and GeodesicExact::InverseStart (starting guess, short-line shortcut, antipodal/astroid arm) executed on the same symbolic inputs return the same sig12, salp1, calp1, salp2, calp2, dnm on every feasible pair of paths',
+                      timeout=1500, tier='quick', bounds={'region': region}))
     return obs
 
 def replay(rp):
     """real code (WGS84 and a prolate ellipsoid): the symmetry evaluated at a few points of the sign pattern of the counterexample"""
-    cex = rp['cex']; lib = H.native({}, WX if cex.get('exact') else W); f = lib.vf_geninverse_exact if cex.get('exact') else lib.vf_geninverse; f.restype = ctypes.c_double; f.argtypes = [ctypes.c_double] * 6 + [ctypes.c_void_p]
+    cex = rp['cex']
+    if cex.get('kind') == 'c02diff': return replay_diff(cex)
+    lib = H.native({}, WX if cex.get('exact') else W); f = lib.vf_geninverse_exact if cex.get('exact') else lib.vf_geninverse; f.restype = ctypes.c_double; f.argtypes = [ctypes.c_double] * 6 + [ctypes.c_void_p]
     s1, s2, sd = cex['signs']; worst = 0; msg = ''
     for (a, fl) in ((6378137.0, 1 / 298.257223563), (6.4e6, -1 / 150.0)):
         for (la1, la2, L, D) in ((30.0, 50.0, 10.0, 70.0), (65.0, 20.0, -100.0, 150.0), (5.0, 80.0, 170.0, 40.0), (45.0, 44.0, 0.0, 179.0), (12.0, 11.0, 20.0, 179.7), (1.0, 2.0, -50.0, 179.9), (70.0, 71.0, 3.0, 0.001)):
@@ -174,10 +343,33 @@ def replay(rp):
             if dev > worst: worst = dev; msg = 'a=%g f=%g (%g,%g)->(%g,%g): outputs %s vs expected from the transformed problem %s' % (a, fl, lat1, lon1, lat2, lon2, ['%.9g' % x for x in list(A)[:8]], ['%.9g' % x for x in want])
     return worst > 1e-9, ('GeodesicExact' if cex.get('exact') else 'Geodesic') + '::GenInverse on the real code, %s, sign pattern %r: largest relative asymmetry %.3g; %s' % (cex['which'], cex['signs'], worst, msg)
 
+def replay_diff(cex):
+    """real code: the series and the exact solver on the same problems (short lines, ordinary lines, the neighbourhood of the antipode down to 1e-9 deg); a disagreement of s12
+    beyond 10 um (the documented accuracy of the series is 15 nm for |f| <= 1/150) reproduces the counterexample"""
+    ls = H.native({}, W); lx = H.native({}, WX); fs = ls.vf_geninverse_area; fx = lx.vf_geninverse_exact_area
+    for f_ in (fs, fx): f_.restype = ctypes.c_double; f_.argtypes = [ctypes.c_double] * 6 + [ctypes.c_void_p]
+    worst = 0.0; msg = ''; n = 0; worstS = 0.0; msgS = ''
+    pts = []
+    for lat1 in (0.0, 0.3, -7.5, 30.0, -45.0, 60.0, 82.0):
+        for d in (1e-9, 1e-8, 1e-7, 1e-6, 1e-4, 1e-2, 0.3):
+            pts += [(lat1, 0.0, -lat1, 180 - d), (lat1, 100.0, -lat1 + d / 2, 100 - 180 + d), (lat1, 10.0, lat1 + d / 3, 10 + d), (lat1, -75.0, lat1 - d, -75.0 + 2 * d)]
+        pts += [(lat1, 0.0, 20.0, 70.0), (lat1, 0.0, -lat1 + 1, 179.0), (lat1, 0.0, -lat1 - 0.2, 179.8)]
+    for (a, fl) in ((6378137.0, 1 / 298.257223563), (6378137.0, 1 / 150.0), (6378137.0, -1 / 150.0)):
+        for (lat1, lon1, lat2, lon2) in pts:
+            if abs(lat2) > 90: continue
+            A = (ctypes.c_double * 9)(); B = (ctypes.c_double * 9)(); fs(a, fl, lat1, lon1, lat2, lon2, A); fx(a, fl, lat1, lon1, lat2, lon2, B); n += 1
+            dev = abs(A[0] - B[0]); dev = dev if dev == dev else float('inf')
+            if dev > worst: worst = dev; msg = 'a=%g f=%.9g (%.12g,%.12g)->(%.12g,%.12g): series s12 = %.6f m, exact s12 = %.6f m' % (a, fl, lat1, lon1, lat2, lon2, A[0], B[0])
+            if fl == 1 / 298.257223563 and abs(lon2 - lon1) < 170:            # area: documented accuracy of the series 0.1 m^2 on WGS84 (away from the antipode, where S12 is ill-conditioned)
+                da = abs(A[8] - B[8]); da = da if da == da else float('inf')
+                if da > worstS: worstS = da; msgS = '(%.12g,%.12g)->(%.12g,%.12g) on WGS84: series S12 = %.4f m^2, exact S12 = %.4f m^2' % (lat1, lon1, lat2, lon2, A[8], B[8])
+    return (worst > 1e-5 or worstS > 0.5), 'Geodesic vs GeodesicExact on the real code at %d problems (disagreement reported by the solver on output %s): largest |s12 difference| %.3g m; %s; largest |S12 difference| %.3g m^2; %s' % (n, cex.get('output'), worst, msg, worstS, msgS)
+
 MANIFEST = {
     'engine': 'E2',
-    'technique': 'symbolic execution of the clang IR of Geodesic::GenInverse over z3 reals, run on a problem and on its reflected / exchanged image with the numerical core as deterministic uninterpreted functions; outputs compared path pair by path pair (z3 validity queries)',
+    'technique': 'symbolic execution of the clang IR of Geodesic::GenInverse / GeodesicExact::GenInverse over z3 reals, run on a problem and on its reflected / exchanged image with the numerical core as deterministic uninterpreted functions; and of Geodesic::InverseStart against GeodesicExact::InverseStart on the same symbolic inputs (differential); outputs compared path pair by path pair (z3 validity queries)',
     'text': 'Bounded solver verdicts on the real code: the canonical-form bookkeeping of the series and of the exact inverse solver (sign of the longitude difference, end-point swap, hemisphere flip and their restoration in s12, the azimuth sines/cosines, m12, M12, M21, a12) '
-            'makes the outputs transform exactly as the symmetries of the problem demand under reflection in the equator, reflection in a meridian and exchange of the end points, for all 8 sign patterns of the inputs.',
-    'note': 'Numerical core opaque (uninterpreted): joining the points, shortestness, convergence, a12 range, agreement with GeodesicExact are not decided; one Newton evaluation; real semantics (no signed zeros, AngDiff = difference); ties excluded; AREA branch not encoded. Trusted: clang-14, vfw/irparse+rsym, z3.',
+            'makes the outputs transform exactly as the symmetries of the problem demand under reflection in the equator, reflection in a meridian and exchange of the end points, for all 8 sign patterns of the inputs. '
+            'Series and exact solvers agree on the starting guess: InverseStart of both solvers (short-line shortcut and its guards, spherical starting azimuth, the prolate antipodal/astroid arm) returns the same sig12, salp1, calp1, salp2, calp2, dnm on every feasible pair of paths for the same inputs (f < 0: whole function; f > 0: n > 1/10, where the A3/H-based antipodal arm is skipped).',
+    'note': 'Numerical core opaque (uninterpreted): joining the points, shortestness, convergence, a12 range are not decided; agreement of the two solvers is decided only for InverseStart (leaf functions sin, cos, sqrt, hypot, atan2, cbrt, Astroid, Lengths uninterpreted; oblate antipodal arm for n <= 1/10 excluded); one Newton evaluation; real semantics (no signed zeros, AngDiff = difference); ties excluded; AREA branch not encoded. Trusted: clang-14, vfw/irparse+rsym, z3.',
 }
